@@ -298,6 +298,17 @@ const SYMS: &[&str] = &[
     ":=", "==", "!=", "<=", ">=", "&&", "||", "(", ")", "{", "}", "[", "]", ",", ".", ":", "=", "+", "-", "*", "/", "<", ">", "!", "&", ";",
 ];
 
+/// the keywords of the Go specification ("Keywords"), written out from the specification — deliberately not
+/// read from go/mangle.rs, whose table is the thing under test
+pub const GO_KEYWORDS: [&str; 25] = [
+    "break", "case", "chan", "const", "continue", "default", "defer", "else", "fallthrough", "for", "func", "go", "goto", "if", "import",
+    "interface", "map", "package", "range", "return", "select", "struct", "switch", "type", "var",
+];
+
+pub fn is_go_keyword(s: &str) -> bool {
+    GO_KEYWORDS.contains(&s)
+}
+
 fn tokenize(text: &str) -> Result<Vec<Tok>, String> {
     let cs: Vec<char> = text.chars().collect();
     let mut i = 0;
@@ -427,10 +438,30 @@ impl P {
     fn expect_sym(&mut self, s: &str) -> R<()> {
         if self.eat_sym(s) { Ok(()) } else { Err(format!("expected `{}`, found {:?} at token {}", s, self.peek(), self.i)) }
     }
+    /// an IDENTIFIER of Go: the 25 keywords of the specification are a token class of their own and can
+    /// stand in no identifier position (declared name, parameter, field, selector after `.`, key of a
+    /// composite literal, type name, import alias): `x.range`, `func default()`, `var map int32` are syntax errors
     fn ident(&mut self) -> R<String> {
+        let at = self.i;
         match self.next() {
+            Tok::Ident(s) if is_go_keyword(&s) => {
+                let after = match at.checked_sub(1).map(|k| &self.t[k]) {
+                    Some(Tok::Sym(".")) => " after `.` (expected selector or type assertion)",
+                    _ => "",
+                };
+                Err(format!("expected identifier, found the Go keyword `{}`{} at token {}", s, after, at))
+            }
             Tok::Ident(s) => Ok(s),
             other => Err(format!("expected identifier, found {:?}", other)),
+        }
+    }
+    /// consume the keyword `k` (keywords are lexed as `Tok::Ident`; only `ident()` tells them apart)
+    fn expect_kw(&mut self, k: &str) -> R<()> {
+        if self.is_kw(k) {
+            self.i += 1;
+            Ok(())
+        } else {
+            Err(format!("expected `{}`, found {:?} at token {}", k, self.peek(), self.i))
         }
     }
 
@@ -449,13 +480,14 @@ impl P {
             self.expect_sym("]")?;
             return Ok(tagged("array", vec![a(n), self.ty()?]));
         }
-        let name = self.ident()?;
-        if name == "struct" {
+        if self.is_kw("struct") {
+            self.i += 1;
             self.expect_sym("{")?;
             self.expect_sym("}")?;
             return Ok(a("unit"));
         }
-        if name == "func" {
+        if self.is_kw("func") {
+            self.i += 1;
             self.expect_sym("(")?;
             let mut ps = Vec::new();
             while !self.is_sym(")") {
@@ -472,6 +504,7 @@ impl P {
             };
             return Ok(tagged("fn", vec![l(ps), ret]));
         }
+        let name = self.ident()?;
         // qualified type of an extern package: time.Duration
         if self.is_sym(".") && matches!(self.peek_at(1), Tok::Ident(_)) {
             self.i += 1;
@@ -577,7 +610,8 @@ impl P {
                     self.expect_sym("}")?;
                     return Ok(tagged("slit", vec![t]));
                 }
-                self.i += 1;
+                // an operand name is an identifier: no keyword can start an expression of the emitted subset
+                let name = self.ident()?;
                 if !nolit && self.is_sym("{") {
                     self.i += 1;
                     return self.composite_body(named(&name));
@@ -702,7 +736,7 @@ impl P {
             if is_type {
                 self.i += 1;
                 self.expect_sym("(")?;
-                self.ident()?; // type
+                self.expect_kw("type")?;
                 self.expect_sym(")")?;
             }
             self.expect_sym("{")?;
@@ -775,9 +809,8 @@ impl P {
                         if self.eat_sym(")") {
                             break;
                         }
-                        let alias = if let Tok::Ident(x) = self.peek().clone() {
-                            self.i += 1;
-                            x
+                        let alias = if let Tok::Ident(_) = self.peek() {
+                            self.ident()?
                         } else {
                             "-".to_string()
                         };
